@@ -178,6 +178,7 @@ pub const OP_CLEAR: u8 = 6;
 pub const OP_EVICT_ALL: u8 = 7;
 pub const OP_GET_HOLD_INSERT: u8 = 8; // C18: look up k, hold, then insert another key; held entry must stay intact
 pub const OP_TOUCH_INSERT: u8 = 9; // C18/C05: touch k (no handle is created), then insert: nothing may stay pinned
+pub const OP_PIN_DROP_KEPT_LAST: u8 = 10; // C18: look k0 up while its insert handle is alive, drop the lookup handle first and the insert handle LAST, then insert
 
 fn step<E>(cfg: E::Config, sc: Sc)
 where
@@ -238,7 +239,7 @@ where
     let payload: u32 = kani::any();
     let v: u64 = ((payload as u64) << 4) | (sc.lit.0 as u64) | if sc.lit.1 { 4 } else { 0 };
     force.set(Some(sc.lit.0), Some(sc.lit.1));
-    step_body::<E>(&sc, &st, &cache, &mut ghost, log.as_ref(), pipe.as_ref(), held.as_ref(), &force, ki, v);
+    step_body::<E>(&sc, &st, &cache, &mut ghost, log.as_ref(), pipe.as_ref(), held.as_ref(), &mut kept, &force, ki, v);
     if let Some(kh) = kept.as_ref() {
         assert!(*kh.key() == KEYS[0] && kh.weight() == weight_of(*kh.value()) && *kh.value() & 8 != 0, "C18: kept insert handle changed");
     }
@@ -267,6 +268,7 @@ fn step_body<E>(
     log: Option<&Arc<EventLog>>,
     pipe: Option<&Arc<RecPipe>>,
     held: Option<&Entry<E>>,
+    kept: &mut Option<Entry<E>>,
     force: &Force,
     ki: usize,
     v: u64,
@@ -300,6 +302,14 @@ fn step_body<E>(
                     assert!(p.count_kv(k, v) == 0, "C13/C12-P1: disk-only entry handed to the disk tier before its last handle is dropped");
                 }
                 kani::cover!(pre[ki].is_some(), "opt: phantom over resident");
+                // a second handle of the disk-only entry that goes away FIRST: nothing may be handed over yet
+                let c = e.clone();
+                assert!(e.refs() == 2, "C18: refs() != number of live handles");
+                drop(c);
+                assert!(e.refs() == 1, "C18: refs() != number of live handles");
+                if let Some(p) = pipe {
+                    assert!(p.count_kv(k, v) == 0, "C13/C12-P1: disk-only entry handed to the disk tier while another handle of it is alive");
+                }
             } else {
                 ghost.last[ki] = Some(v);
                 assert!(cache.contains(&k), "insert: new entry not findable right after insert");
@@ -394,6 +404,25 @@ fn step_body<E>(
             assert!(lit_w == weight_of(v) && !lit_rej);
             if lit_w <= capacity && !pinned {
                 assert!(cache.usage() <= capacity, "C18/C05: over capacity after touch + insert although no handle is outstanding (touched entry stays pinned)");
+            }
+            drop(e);
+        }
+        OP_PIN_DROP_KEPT_LAST => {
+            // the insert handle of k (= KEYS[0]) is alive (`kept`); a lookup pins the record (LRU); the lookup handle goes
+            // first, the insert handle LAST: whichever handle is the last one must give the pin back
+            let g = cache.get(&k);
+            assert!(g.is_some() && kept.is_some(), "harness: OP_PIN_DROP_KEPT_LAST needs keep_insert_handle and key 0");
+            assert!(g.as_ref().unwrap().refs() == 2, "C18: refs() != number of live handles");
+            drop(g);
+            let kh = kept.take();
+            assert!(kh.as_ref().unwrap().refs() == 1, "C18: refs() != number of live handles");
+            drop(kh);
+            let kj = 2; // the absent key 32
+            let e = cache.insert(KEYS[kj], v);
+            ghost.last[kj] = Some(v);
+            assert!(lit_w == weight_of(v) && !lit_rej);
+            if lit_w <= capacity && !pinned {
+                assert!(cache.usage() <= capacity, "C18: capacity not re-established although no looked-up handle is outstanding (entry stays pinned after its last handle was dropped)");
             }
             drop(e);
         }
@@ -580,6 +609,8 @@ st!(raw_lru_c2_hold_ins_k2_w3, LruT, LRU_CFG, Some(2), FULL2, 2, true, true, tru
 st!(raw_lru_c2_hold_ins_k1_w1, LruT, LRU_CFG, Some(2), FULL2, 2, true, true, true, OP_INSERT, 1, 1, false);
 // the insert handle of key 16 is still alive when it is looked up: the lookup must pin all the same
 step_harness!(raw_lru_c2_keep_hold_ins_k2_w2, LruT, LRU_CFG, Sc { keep_insert_handle: true, lit: (2, false), ..sck(Some(2), FULL2, 2, true, true, false, OP_INSERT, 2) });
+step_harness!(raw_lru_c2_keep_pin_droplast_k0_w2, LruT, LRU_CFG, Sc { keep_insert_handle: true, lit: (2, false), ..sck(Some(2), FULL2, 2, false, true, false, OP_PIN_DROP_KEPT_LAST, 0) });
+step_harness!(raw_fifo_c2_keep_pin_droplast_k0_w2, FifoT, FC, Sc { keep_insert_handle: true, lit: (2, false), ..sck(Some(2), FULL2, 2, false, false, false, OP_PIN_DROP_KEPT_LAST, 0) });
 step_harness!(raw_lru_c2_keep_hold_ins_k2_w1, LruT, LRU_CFG, Sc { keep_insert_handle: true, lit: (1, false), ..sck(Some(2), FULL2, 2, true, true, false, OP_INSERT, 2) });
 step_harness!(raw_lru_c2_hold_evictall, LruT, LRU_CFG, sc(Some(2), FULL2, 2, true, true, true, OP_EVICT_ALL));
 step_harness!(raw_lru_c2_hold_clear, LruT, LRU_CFG, sc(Some(2), FULL2, 2, true, true, false, OP_CLEAR));
